@@ -17,6 +17,10 @@ type StrVal struct{ b []*Term }
 type PtrVal struct {
 	obj  int // 0 = nil
 	path []int
+	// sym != nil: the last path element is a placeholder, the real index is
+	// the term sym in [0, symN) (only for arrays of scalars)
+	sym  *Term
+	symN int
 }
 type SliceVal struct {
 	obj           int // 0 = nil slice
@@ -47,7 +51,10 @@ type IterVal struct {
 }
 
 // Model objects living in the heap.
-type BigIntVal struct{ t *Term } // math/big.Int as SMT Int
+type BigIntVal struct {
+	t    *Term // bit-vector of bigW bits, two's complement
+	bits int   // static bound on the magnitude in bits
+}
 type BigFloatVal struct {
 	f    *Term // Float64 value
 	prec int
@@ -177,6 +184,7 @@ type State struct {
 	siteCtr int // per-path counter naming fork sites
 	reached []string
 	sharded bool
+	approx  bool // the path went through an over-approximating model
 	dom     *lmap[*Term, *[4]uint64] // feasible-value superset per 8-bit variable
 	multi   *lmap[*Term, bool]       // variables constrained together with other variables
 	pcSeen  int                      // number of pc conjuncts already folded into dom
